@@ -216,13 +216,32 @@ TBadProperty == SelectSeq(TRows, LAMBDA r : ~TProperty(r))
 \* reported as drift, not as a violation: where the conversion is registered, a From reaches the forms that accept a temporary
 TBadTranscription == SelectSeq(TRows, LAMBDA r : r.second = "" /\ r.conv = 1 /\ TArgs[r.arg].bare = "From" /\ r.entered = "")
 
+(* vector_conversion<std::vector<int>>: a function with a std::vector<int> parameter is entered with a script Vector only in an engine    *)
+(* where the conversion is registered and only when EVERY element is an int (no element is converted arithmetically, none skipped);       *)
+(* it receives exactly the elements.                                                                                                      *)
+VRows == SelectSeq(Rows, LAMBDA r : r.k = "v")
+VForms == {"vecint", "cvecint&"}
+VArgs == [ ints |-> [ok |-> TRUE, recv |-> "vec:1,2,3"], empty |-> [ok |-> TRUE, recv |-> "vec:"], vvar |-> [ok |-> TRUE, recv |-> "vec:4,5"],
+           mixed |-> [ok |-> FALSE, recv |-> ""], dbls |-> [ok |-> FALSE, recv |-> ""], nested |-> [ok |-> FALSE, recv |-> ""],
+           longs |-> [ok |-> FALSE, recv |-> ""], ivar |-> [ok |-> FALSE, recv |-> ""], svar |-> [ok |-> FALSE, recv |-> ""] ]
+VAllowed(r, f) == f = "BV" \/ (f \in VForms /\ r.conv = 1 /\ VArgs[r.arg].ok)
+VOverloads(r) == IF r.second = "" THEN {r.first} ELSE {r.first, r.second}
+VProperty(r) ==
+  /\ r.n = (IF r.entered = "" THEN 0 ELSE 1)
+  /\ (r.entered = "" <=> r.oc # "ok")
+  /\ (r.entered # "" => r.entered \in VOverloads(r) /\ VAllowed(r, r.entered))
+  /\ (r.entered \in VForms => r.recv = VArgs[r.arg].recv)
+  /\ ((\A f \in VOverloads(r) : ~VAllowed(r, f)) => r.entered = "")
+VBadProperty == SelectSeq(VRows, LAMBDA r : ~VProperty(r))
+VBadTranscription == SelectSeq(VRows, LAMBDA r : r.second = "" /\ r.conv = 1 /\ VArgs[r.arg].ok /\ r.entered = "")
+
 (* each call enters exactly one overload exactly once - also when the entered function itself throws *)
 XRows == SelectSeq(Rows, LAMBDA r : r.k = "x")
 XBad == SelectSeq(XRows, LAMBDA r : r.n > 1)
 
 Show(s, n) == \A i \in 1..(IF Len(s) < n THEN Len(s) ELSE n) : PrintT(<<"BAD", s[i]>>)
-Counts == <<"rows", Len(Rows), "property", Len(UBadProperty) + Len(BBadProperty) + Len(CBadProperty) + Len(ABad) + Len(MBadProperty) + Len(TBadProperty),
-            "transcription", Len(UBadTranscription) + Len(BBadTranscription) + Len(CBadTranscription) + Len(TBadTranscription)>>
+Counts == <<"rows", Len(Rows), "property", Len(UBadProperty) + Len(BBadProperty) + Len(CBadProperty) + Len(ABad) + Len(MBadProperty) + Len(TBadProperty) + Len(VBadProperty),
+            "transcription", Len(UBadTranscription) + Len(BBadTranscription) + Len(CBadTranscription) + Len(TBadTranscription) + Len(VBadTranscription)>>
 \* the verdicts are written out so that the check can name the failing calls
 Verdicts == ndJsonSerialize(IOEnv.OUT,
    [i \in 1..Len(UBadProperty) |-> [why |-> "property", row |-> UBadProperty[i]]] \o
@@ -232,6 +251,8 @@ Verdicts == ndJsonSerialize(IOEnv.OUT,
    [i \in 1..Len(MBadProperty) |-> [why |-> "property", row |-> MBadProperty[i]]] \o
    [i \in 1..Len(XBad) |-> [why |-> "property", row |-> XBad[i]]] \o
    [i \in 1..Len(TBadProperty) |-> [why |-> "property", row |-> TBadProperty[i]]] \o
+   [i \in 1..Len(VBadProperty) |-> [why |-> "property", row |-> VBadProperty[i]]] \o
+   [i \in 1..Len(VBadTranscription) |-> [why |-> "transcription", row |-> VBadTranscription[i]]] \o
    [i \in 1..Len(TBadTranscription) |-> [why |-> "transcription", row |-> TBadTranscription[i]]] \o
    [i \in 1..Len(UBadTranscription) |-> [why |-> "transcription", row |-> UBadTranscription[i], predicted |-> UPredict(UBadTranscription[i])]] \o
    [i \in 1..Len(BBadTranscription) |-> [why |-> "transcription", row |-> BBadTranscription[i], predicted |-> BPredict(BBadTranscription[i])]] \o
